@@ -15,6 +15,11 @@ import (
 
 func heldBy(x interface{}) int { return ghostInt("held", x) }
 
+// readerHeld: pooled gzip readers are held only by ReadEntity, between its
+// Acquire and its deferred Release; user callbacks have no handle on them
+// (ghost names under own. are not havocked by callbacks, A-CB).
+func readerHeld(r *gzip.Reader) int { return ghostInt("own.rheld", r) }
+
 func resetTarget(x interface{}) interface{} { return ghostIface("ztarget", x) }
 
 func zClosed(x interface{}) int { return ghostInt("zclosed", x) }
@@ -42,4 +47,18 @@ func encodingEnabledFor(c *Container, r *Route) bool {
 		return *r.contentEncodingEnabled
 	}
 	return c.contentEncodingEnabled
+}
+
+// registryOK: no nil accessor is registered.
+func registryOK(r *entityReaderWriters) bool {
+	return r.accessors != nil && forallStr(func(k string) bool {
+		v, ok := r.accessors[k]
+		return !ok || v != nil
+	})
+}
+
+// isGzipReaderOnBody: the request body is a gzip.Reader that was Reset onto the original body.
+func isGzipReaderOnBody(r *Request, orig io.ReadCloser) bool {
+	g, ok := r.Request.Body.(*gzip.Reader)
+	return ok && g != nil && resetTarget(g) == orig && readerHeld(g) == 1
 }
